@@ -77,7 +77,7 @@ func pipesFor(p protos.P) []string {
 
 func configs(tierName string, r *core.Rand) []Config {
 	var out []Config
-	names := []string{"raw", "json", "pb", "thrift-binary", "thrift-struct", "http"}
+	names := []string{"raw", "json", "pb", "thrift-binary", "thrift-struct", "http", "ws-json", "ws-pb"}
 	sg := [][2]int{{1, 1}, {1, 8}, {2, 8}, {4, 8}, {1, 32}, {2, 32}}
 	chunks := []string{"whole", "one", "prime", "rand"}
 	logs := []string{"OFF", "OFF", "DEBUG"}
@@ -235,7 +235,14 @@ func runCase(id string, cfg Config, r *core.Rand) {
 	var links []*bed.Link
 	for i := 0; i < cfg.S; i++ {
 		cseed := int64(r.Uint64() >> 1)
-		l, err := bed.Connect(pa, pb, p.Func, p.Func, func(ca, cb *memconn.Conn) {
+		connect := func(a, b erpc.Peer, pfa, pfb erpc.ProtoFunc, prep func(ca, cb *memconn.Conn)) (*bed.Link, error) {
+			if !p.Stream {
+				// websocket sub-protocols: real websocket handshake and framing over the in-memory connection
+				return bed.ConnectWS(a, b, pfa, prep)
+			}
+			return bed.Connect(a, b, pfa, pfb, prep)
+		}
+		l, err := connect(pa, pb, p.Func, p.Func, func(ca, cb *memconn.Conn) {
 			switch cfg.Chunk {
 			case "one":
 				ca.SetReadChunk(memconn.ChunkOne)
